@@ -31,6 +31,9 @@ def swap(s1, s2, A):
     :param A: The sites that will be swapped between the two replicas.
     :type A: int or list or np.array or torch.Tensor
     """
+    if torch.is_tensor(A) and A.dtype != torch.bool:
+        A = A.long()  # site numbers, whatever dtype they are stored in (torch.tensor([]) is float32)
+
     _s = s1[:, A].clone()
     s1[:, A] = s2[:, A]
     s2[:, A] = _s
